@@ -139,8 +139,12 @@ impl Allocator {
   {
     let string = src.as_ref();
     if let Some(cached) = self.intern_cache.get(string) {
+      #[cfg(feature = "verif")]
+      crate::verif::probe(crate::verif::probes::INTERN_HIT);
       return *cached;
     }
+    #[cfg(feature = "verif")]
+    crate::verif::probe(crate::verif::probes::INTERN_INSERT);
 
     let managed = self.allocate_obj(string, context);
     let static_str: &'static str = unsafe { &*(&*managed as *const str) };
@@ -189,8 +193,15 @@ impl Allocator {
     T: Allocate<R>,
     C: TraceRoot + ?Sized,
   {
+    #[cfg(feature = "verif")]
+    self.verif_quiescent();
+
     // create own store of allocation
+    #[cfg(feature = "verif")]
+    let verif_managed = crate::verif::ManagedAlloc::enter();
     let result = data.alloc();
+    #[cfg(feature = "verif")]
+    drop(verif_managed);
     let handle = result.handle;
     let reference = result.reference;
 
@@ -203,6 +214,9 @@ impl Allocator {
 
     #[cfg(feature = "gc_stress")]
     self.collect_garbage_with_value(context, reference);
+
+    #[cfg(feature = "verif")]
+    self.verif_after_allocation(context, reference);
 
     if self.bytes_allocated > self.next_gc {
       self.collect_garbage_with_value(context, reference);
@@ -220,8 +234,15 @@ impl Allocator {
     T: AllocateObj<R>,
     C: TraceRoot + ?Sized,
   {
+    #[cfg(feature = "verif")]
+    self.verif_quiescent();
+
     // create own store of allocation
+    #[cfg(feature = "verif")]
+    let verif_managed = crate::verif::ManagedAlloc::enter();
     let result = data.alloc();
+    #[cfg(feature = "verif")]
+    drop(verif_managed);
     let obj = result.reference;
 
     // push onto heap
@@ -233,6 +254,9 @@ impl Allocator {
 
     #[cfg(feature = "gc_stress")]
     self.collect_garbage_with_value(context, obj);
+
+    #[cfg(feature = "verif")]
+    self.verif_after_allocation(context, obj);
 
     if self.bytes_allocated > self.next_gc {
       self.collect_garbage_with_value(context, obj);
@@ -286,7 +310,10 @@ impl Allocator {
       let heap_size = self.sweep_heap();
 
       self.bytes_allocated = heap_size + obj_heap_size;
-      self.next_gc = self.bytes_allocated * GC_HEAP_GROW_FACTOR
+      self.next_gc = self.bytes_allocated * GC_HEAP_GROW_FACTOR;
+
+      #[cfg(feature = "verif")]
+      crate::verif::collected();
     }
 
     #[cfg(any(
@@ -351,6 +378,24 @@ impl Allocator {
   /// Remove unmarked objects from the heap. This calculates the remaining
   /// memory present in the heap
   fn sweep_obj_heap(&mut self) -> usize {
+    #[cfg(all(feature = "verif", not(feature = "gc_stress")))]
+    {
+      use crate::verif::SweepMode;
+      let forced = match crate::verif::sweep_mode() {
+        SweepMode::Native => None,
+        SweepMode::Nursery => Some(false),
+        SweepMode::Full => Some(true),
+      };
+      crate::verif::note_sweep(forced.unwrap_or(self.gc_count % 10 == 0));
+      if let Some(full) = forced {
+        return if full {
+          self.sweep_obj_full()
+        } else {
+          self.sweep_obj_nursery()
+        };
+      }
+    }
+
     #[cfg(feature = "gc_stress")]
     return self.sweep_obj_full();
 
@@ -470,7 +515,15 @@ impl Allocator {
   /// Remove strings from the cache that no longer have any references
   /// in the heap
   fn sweep_intern_cache(&mut self) {
+    #[cfg(feature = "verif")]
+    let verif_interned = self.intern_cache.len();
+
     self.intern_cache.retain(|_, &mut string| string.marked());
+
+    #[cfg(feature = "verif")]
+    for _ in self.intern_cache.len()..verif_interned {
+      crate::verif::probe(crate::verif::probes::INTERN_EVICT);
+    }
   }
 
   /// Debug logging for allocating an object.
@@ -487,6 +540,145 @@ impl Allocator {
       DebugWrap(&reference, 3)
     )
     .expect("unable to write to stdout");
+  }
+}
+
+/// The allocator's books as seen by the simulation harness
+#[cfg(feature = "verif")]
+#[derive(Clone, Debug, Default)]
+pub struct VerifStats {
+  pub gc_count: u128,
+  pub bytes_allocated: usize,
+  pub next_gc: usize,
+  pub temp_roots: usize,
+  pub interned: usize,
+  pub heap_count: usize,
+  pub heap_bytes: usize,
+  pub obj_count: usize,
+  pub obj_bytes: usize,
+  pub nursery_count: usize,
+  pub nursery_bytes: usize,
+
+  /// The number of object handles per `ObjectKind` discriminant
+  pub kinds: [usize; 16],
+}
+
+#[cfg(feature = "verif")]
+impl Allocator {
+  /// Report to the harness that the first allocation after a collection is about to happen
+  fn verif_quiescent(&mut self) {
+    if crate::verif::take_quiescent_pending() {
+      crate::verif::quiescent(self);
+    }
+  }
+
+  /// Let the harness decide if a collection follows this allocation
+  fn verif_after_allocation<C: TraceRoot + ?Sized, T: 'static + Trace>(
+    &mut self,
+    context: &C,
+    item: T,
+  ) {
+    use crate::verif::{GcDecision, SweepMode};
+
+    if let Some(threshold) = crate::verif::take_initial_threshold() {
+      self.next_gc = threshold;
+    }
+
+    let (mode, times) = match crate::verif::gc_decision(self.bytes_allocated) {
+      GcDecision::Native => return,
+      GcDecision::Skip => {
+        self.next_gc = usize::MAX;
+        return;
+      },
+      GcDecision::Nursery => (SweepMode::Nursery, 1),
+      GcDecision::Full => (SweepMode::Full, 1),
+      GcDecision::FullTwice => (SweepMode::Full, 2),
+    };
+
+    crate::verif::set_sweep_mode(mode);
+    self.push_root(item);
+    for _ in 0..times {
+      self.collect_garbage(context);
+    }
+    self.pop_roots(1);
+    crate::verif::set_sweep_mode(SweepMode::Native);
+
+    // the harness owns the schedule so the byte threshold must not fire as well
+    self.next_gc = usize::MAX;
+  }
+
+  /// The allocator's books
+  pub fn verif_stats(&self) -> VerifStats {
+    let mut stats = VerifStats {
+      gc_count: self.gc_count,
+      bytes_allocated: self.bytes_allocated,
+      next_gc: self.next_gc,
+      temp_roots: self.temp_roots.len(),
+      interned: self.intern_cache.len(),
+      heap_count: self.heap.len(),
+      heap_bytes: self.heap.iter().map(|handle| handle.size()).sum(),
+      obj_count: self.obj_heap.len(),
+      obj_bytes: self.obj_heap.iter().map(|handle| handle.size()).sum(),
+      nursery_count: self.nursery_obj_heap.len(),
+      nursery_bytes: self.nursery_obj_heap.iter().map(|handle| handle.size()).sum(),
+      kinds: [0; 16],
+    };
+
+    for handle in self.obj_heap.iter().chain(self.nursery_obj_heap.iter()) {
+      stats.kinds[handle.kind() as usize] += 1;
+    }
+
+    stats
+  }
+
+  /// Visit the location and size of every block this allocator owns. Objects
+  /// report their kind, other allocations `u8::MAX`
+  pub fn verif_handles(&self, visit: &mut dyn FnMut(*const u8, usize, u8)) {
+    for handle in &self.heap {
+      visit(handle.loc(), handle.size(), u8::MAX);
+    }
+    for handle in self.obj_heap.iter().chain(self.nursery_obj_heap.iter()) {
+      visit(handle.verif_loc(), handle.size(), handle.kind() as u8);
+    }
+  }
+
+  /// Is every interned string owned by this allocator and is every string it owns interned
+  pub fn verif_intern_consistent(&self) -> Result<(), String> {
+    let mut strings = 0;
+    for handle in self.obj_heap.iter().chain(self.nursery_obj_heap.iter()) {
+      if handle.kind() == crate::object::ObjectKind::String {
+        strings += 1;
+      }
+    }
+
+    for (key, string) in &self.intern_cache {
+      if *key != &**string {
+        return Err(format!("intern key {:?} maps to string {:?}", key, &**string));
+      }
+    }
+
+    if strings != self.intern_cache.len() {
+      return Err(format!(
+        "{} strings owned but {} interned",
+        strings,
+        self.intern_cache.len()
+      ));
+    }
+
+    Ok(())
+  }
+
+  /// Run a collection in the requested mode on behalf of the harness
+  pub fn verif_collect<C: TraceRoot + ?Sized>(&mut self, context: &C, full: bool) {
+    use crate::verif::SweepMode;
+
+    crate::verif::set_sweep_mode(if full {
+      SweepMode::Full
+    } else {
+      SweepMode::Nursery
+    });
+    self.collect_garbage(context);
+    crate::verif::set_sweep_mode(SweepMode::Native);
   }
 }
 
